@@ -81,7 +81,7 @@ func Tables() string {
 	}
 	sort.Strings(names)
 	var sb strings.Builder
-	sb.WriteString("(* REGENERATED on every run by `vcheck tables` from /repo's working tree (build tag verif exports). Do not edit. *)\n")
+	sb.WriteString("(* REGENERATED on every run by `build/vcheck_Cnn tables` from /repo's working tree (build tag verif exports). Do not edit. *)\n")
 	sb.WriteString("From Coq.Strings Require Import Byte String.\nFrom Coq Require Import List NArith.\nImport ListNotations.\nFrom V Require Import lib.Bytes.\nOpen Scope N_scope.\n\n")
 	for _, n := range names {
 		sb.WriteString("(* ---- " + n + " ---- *)\n")
@@ -431,7 +431,7 @@ func (c *Ctx) Finish() int {
 	cov := map[string]any{
 		"obligations":         len(c.Obls),
 		"discharged":          discharged,
-		"checker_cmd":         "make -C /verif/coq (coqc 8.16.1, full .vo build) && coqc -Q /verif/coq V /verif/coq/props/" + c.ID + ".v ; /verif/build/vcheck " + c.ID,
+		"checker_cmd":         "make -C /verif/coq (coqc 8.16.1, full .vo build) && coqc -Q /verif/coq V /verif/coq/props/" + c.ID + ".v ; /verif/build/vcheck_" + c.ID + " " + c.ID,
 		"trusted_base":        c.Trusted,
 		"evaluations":         c.Evals,
 		"distinct_nontrivial": len(c.distinct),
@@ -507,7 +507,9 @@ func Main(args []string) int {
 	}
 	id := args[0]
 	if id == "tables" {
-		fmt.Print(Tables())
+		if len(tableGens) > 0 {
+			fmt.Print(Tables())
+		}
 		return 0
 	}
 	f, ok := registry[id]
